@@ -44,21 +44,22 @@ def sec(ns: int) -> float:
     raise ValueError(f"no exact float for {ns} ns")
 
 
-def tick_ok(T: int, max_coarse: int = 4) -> bool:
+def tick_ok(T: int, max_stack: int = 3) -> bool:
     """Pure float arithmetic (no repository code): do the latency values used by the harness survive the
-    Duration -> seconds -> Instant round trips of link.py / network_faults.py exactly?"""
+    Duration -> seconds -> Instant round trips of link.py / network_faults.py exactly?  Checked for the base
+    latency alone and for every stack of up to max_stack compounded extras of 1..3 coarse ticks."""
+    import itertools
     try:
-        for base in (1,):
-            for extra in range(0, max_coarse + 1):
-                b = int(sec(base * T) * 1_000_000_000)              # ConstantLatency.get_latency -> Duration
-                if extra == 0:
-                    tot = float(b) / 1e9                              # .to_seconds() in _calculate_delay
-                else:
-                    ems = extra * T / 1e6
-                    e = int((ems / 1000.0) * 1_000_000_000)
-                    comp = int((float(b) / 1e9 + float(e) / 1e9) * 1_000_000_000)   # _CompoundLatency
-                    tot = float(comp) / 1e9
-                if int(tot * 1_000_000_000) != (base + extra) * T:  # Instant + float
+        b = int(sec(T) * 1_000_000_000)                              # ConstantLatency.get_latency -> Duration
+        if int((float(b) / 1e9) * 1_000_000_000) != T:                # .to_seconds() -> Instant + float
+            return False
+        for n in range(1, max_stack + 1):
+            for extras in itertools.product((1, 2, 3), repeat=n):
+                cur = b
+                for x in extras:
+                    e = int(((x * T / 1e6) / 1000.0) * 1_000_000_000)            # ConstantLatency(extra_ms / 1000)
+                    cur = int((float(cur) / 1e9 + float(e) / 1e9) * 1_000_000_000)  # _CompoundLatency
+                if int((float(cur) / 1e9) * 1_000_000_000) != (1 + sum(extras)) * T:
                     return False
         return True
     except ValueError:
@@ -373,6 +374,8 @@ def random_schedule(rng: random.Random):
             tg, x = [rng.randint(1, len(groups))], int(rng.random() < 0.3)
         elif k in ("lat", "loss"):
             tg = rng.sample(eps, 2) if rng.random() < 0.3 else [eps[0], eps[1]]
+            if k == "lat" and sum(1 for w in wins if w["k"] == "lat" and w["tg"] == tg) >= 3:
+                k = "loss"                                   # float exactness is checked for stacks of <= 3 extras
             x = 3 * rng.randint(1, 3) if k == "lat" else 0
         else:
             tg, x = [0], rng.choice([v for v in (1, 2, 3, 4, 6) if v < C and C * (v / C) == v])
